@@ -330,6 +330,9 @@ def conds_sym(chk: Check, ctx: FuncCtx, node, kinds=("if", "prior"), with_kind=F
         at = ctx.cfg.node_of.get(ifstmt)
         t = chk.R.expr(ctx, test, at)
         out.append((t, pol, kind) if with_kind else (t, pol))
+    if "if" in kinds:
+        for t, pol in getattr(node, "_hv_extra_conds", ()):
+            out.append((t, pol, "if") if with_kind else (t, pol))
     return out
 
 
@@ -542,12 +545,34 @@ def zeros_len(t):
     return None
 
 
+def split_alternatives(t, conds=()):
+    """A value selected by conditions, ite(c, a, b), as separate (extra path conditions, value) alternatives."""
+    if isinstance(t, tuple) and t and t[0] == "ite":
+        return split_alternatives(t[2], conds + ((t[1], True),)) + split_alternatives(t[3], conds + ((t[1], False),))
+    return [(conds, t)]
+
+
+def site_with_conds(node, extra):
+    """A stand-in for `node` (same position, same parent) that carries extra path conditions for conds_sym."""
+    if not extra:
+        return node
+    import copy
+
+    c = copy.copy(node)
+    c._hv_extra_conds = tuple(getattr(node, "_hv_extra_conds", ())) + tuple(extra)
+    c._hv_origin = getattr(node, "_hv_origin", node)
+    return c
+
+
 def appends_in(chk: Check, ctx: FuncCtx):
-    """`<list>.append(x)` calls of a function: (call, term of x)."""
+    """`<list>.append(x)` calls of a function: (call, term of x).  When x is a value chosen by conditions (the result of
+    an inlined helper, a conditional expression) every alternative is a site of its own carrying those conditions."""
     out = []
     for n in calls_named(ctx, "append"):
         if len(n.args) == 1:
-            out.append((n, chk.R.expr(ctx, n.args[0])))
+            t = chk.R.expr(ctx, n.args[0])
+            for extra, alt in split_alternatives(t):
+                out.append((site_with_conds(n, extra), alt))
     return out
 
 
